@@ -38,7 +38,15 @@ def impl_dec(b, off):
 
 def impl_enc(i):
     def f():
-        return "ok " + hx(U.encode_varint(i))
+        out = U.encode_varint(i)
+        res = "ok " + hx(out)
+        # the caller owns the buffer it is given: a cell builder appends to it in place.  Every value is encoded more than
+        # once per run (correspondence, then oracle), so a result that is shared between calls (memoised, a module-level
+        # buffer) shows up as a wrong encoding the second time
+        if isinstance(out, bytearray) and len(out):
+            out[0] ^= 0xFF
+            out += b"\xa5\x5a"
+        return res
     return guarded(f)
 
 
